@@ -7,6 +7,6 @@ From Mos Require Import model.SourceMap model.Listing model.Emit spec.ListingSpe
 
 Extraction "../extract/gen/c11.ml"
   Z.add Z.mul Z.sub Z.opp Z.div Z.modulo Z.of_N Z.to_N Z.of_nat Z.to_nat N.add N.mul
-  to_listing to_listing_checked to_listing_text render_listing to_listing_file address_to_offset line_col_to_offsets move_offsets look_up_span num_lines
+  to_listing to_listing_checked width_accepted to_listing_text render_listing to_listing_file address_to_offset line_col_to_offsets move_offsets look_up_span num_lines
   run view_segments seg_new
   spec_rows spec_line row_cells Known_listing_name_collision.
